@@ -128,9 +128,25 @@ package main
 //@   ensures[no-metadata-or-queue-file-touched] gfsOpens == old(gfsOpens) && gfsWrites == old(gfsWrites) && gfsRenames == old(gfsRenames) && dqCalls == old(dqCalls)
 
 // The config-file translation helpers: each writes its own receiver only.
+// (round 5, integration; C11 "TLS required cannot be bypassed" starts at the flag) the policy is decided by the spelling alone: only
+// "tcp-https" (any case) selects TLSRequiredExceptHTTP; every other accepted spelling is a strconv.ParseBool boolean - true (incl. "1")
+// means TLS required everywhere, false not required; a spelling ParseBool rejects is an error and leaves "not required".
+//@ fn r5mLower(s string) string
+//@ fn r5mBoolVal(s string) bool
+//@ extern[in github.com/nsqio/nsq/apps/nsqd] strings.ToLower(s) (r)
+//@   ensures r == r5mLower(s)
+//@   modifies
+//@ extern[in github.com/nsqio/nsq/apps/nsqd] strconv.ParseBool(s) (b, err)
+//@   ensures b == r5mBoolVal(s) && (err != nil ==> !b)
+//@   ensures[documented-true-spellings] s == "1" || s == "t" || s == "true" ==> b && err == nil
+//@   modifies
 //@ func (t *tlsRequiredOption) Set(s string) error
-//@   props C06
+//@   props C06 C11
 //@   requires t != nil
+//@   ensures[except-http-only-by-name] r5mLower(s) == "tcp-https" ==> *t == nsqd.TLSRequiredExceptHTTP && result == nil
+//@   ensures[otherwise-a-boolean] r5mLower(s) != "tcp-https" ==> (r5mBoolVal(r5mLower(s)) ==> *t == nsqd.TLSRequired) && (!r5mBoolVal(r5mLower(s)) ==> *t == nsqd.TLSNotRequired)
+//@   ensures[numeric-true-means-required] r5mLower(s) == "1" || r5mLower(s) == "true" ==> *t == nsqd.TLSRequired && result == nil
+//@   ensures[rejected-spelling-is-an-error] result != nil ==> *t == nsqd.TLSNotRequired
 //@   modifies *t
 //@   keeps r5IResolves, r5IResolvedOpts, r5IResolvedFlags
 //@   nochan
